@@ -108,7 +108,13 @@ func (c *CFG) CoverSentences() [][]string {
 // expansion that prefers, while short of the target, the production of the non-terminal that leads back to a
 // recursion), or nil if the language is finite or only error alternatives recurse. Deep nesting / long right
 // recursions push the parser stack far beyond its initial capacity.
-func (c *CFG) LongSentence(target int) []string {
+func (c *CFG) LongSentence(target int) []string { return c.longSentence(target, false) }
+
+// DeepSentence is LongSentence pumping, where there is one, a production whose recursive symbol follows a non-empty
+// prefix (nesting or right recursion): each round then leaves symbols on the LR stack, which grows with the input.
+func (c *CFG) DeepSentence(target int) []string { return c.longSentence(target, true) }
+
+func (c *CFG) longSentence(target int, deep bool) []string {
 	const inf = 1 << 30
 	minLen := map[string]int{}
 	for n := range c.NT {
@@ -171,15 +177,23 @@ func (c *CFG) LongSentence(target int) []string {
 	}
 	// growing production of A: A -> ... B ... with B reaching A and at least one more symbol (so each round adds tokens)
 	grow := map[string]int{}
+	growPrefix := map[string]int{}
 	for i, p := range c.Prods {
 		if cost(p) >= inf || p.Head == "S'" {
 			continue
 		}
+		prefix := 0
 		for _, s := range p.Body {
 			if c.NT[s] && (s == p.Head || reach[s][p.Head]) && cost(p) > minLen[s] {
-				if _, ok := grow[p.Head]; !ok {
+				if _, ok := grow[p.Head]; !ok || (deep && prefix > 0 && growPrefix[p.Head] == 0) {
 					grow[p.Head] = i
+					growPrefix[p.Head] = prefix
 				}
+			}
+			if c.NT[s] {
+				prefix += minLen[s]
+			} else {
+				prefix++
 			}
 		}
 	}
